@@ -385,6 +385,10 @@ def worker(case: Dict[str, Any]) -> CaseResult:
                 return CaseResult("inconclusive", note="harness: schema %s is not invalid for graphql-core" % label, stats={"fault_not_confirmed": 1})
             if strategy == "client":
                 queries = "query Q { __typename }"
+        elif kind == "collision":
+            queries = QUERIES + "\nquery %s { node { id } }\n" % label
+            expected_classes = ("ParsingError",)
+            token = None
         elif kind == "operation":
             queries = dict(INVALID_OPS)[label]
             ref = build_schema(SCHEMA + "\ndirective @mixin(from: String, import: String) repeatable on FIELD | FRAGMENT_DEFINITION\n")
@@ -492,6 +496,11 @@ def valid_worker(case: Dict[str, Any]) -> CaseResult:
         queries = QUERIES + ("\nfragment Unused on User { id }\n" if label == "unused-fragment" else "")
         write_case(root, SCHEMA, queries if strategy == "client" else None, cfg, section_style=section_style)
         import toml
+        if label == "deprecated-section":
+            # the legacy top-level section living next to other tools' tables, as in a real pyproject.toml
+            doc_ = toml.load(root / "pyproject.toml")
+            doc_["tool"] = {"black": {"line-length": 88}, "pytest": {"ini_options": {"testpaths": ["tests"]}}}
+            (root / "pyproject.toml").write_text(toml.dumps(doc_))
         config_dict = toml.load(root / "pyproject.toml")
         snapshot = copy.deepcopy(config_dict)
         old = os.getcwd()
@@ -538,6 +547,10 @@ def all_cases(tier: str) -> List[Dict[str, Any]]:
         for strategy in ("client", "graphqlschema"):
             for st in (states if tier == "thorough" else [states[idx % 4]]):
                 cases.append({"kind": "schema", "label": label, "strategy": strategy, "state": st, "idx": idx})
+        idx += 1
+    for label in ("Exceptions", "Client", "Enums", "InputTypes", "BaseModel", "AsyncBaseClient", "input_types", "Fragments"):
+        for st in (states if tier == "thorough" else [states[idx % 4], "previous"]):
+            cases.append({"kind": "collision", "label": label, "strategy": "client", "state": st, "idx": idx})
         idx += 1
     for label, _ in INVALID_OPS:
         for st in (states if tier == "thorough" else [states[idx % 4], "previous"]):
